@@ -433,6 +433,9 @@ impl<C: Config> Engine<C> {
 
         // pulling the value
         let value = loop {
+            #[cfg(qbice_verif)]
+            crate::verif::point_query("q_start", &query.id);
+
             // exit SCC if any, otherwise deadlock may happen
             match self.exit_scc(&query.id, caller).await {
                 // continue to process
@@ -448,6 +451,9 @@ impl<C: Config> Engine<C> {
                     return Err(err);
                 }
             }
+
+            #[cfg(qbice_verif)]
+            crate::verif::point_query("q_fast", &query.id);
 
             // acquire read snapshot
             let mut snapshot =
